@@ -40,7 +40,15 @@ pub mod tracking {
     pub struct Table { pub x: u8 }
     impl Table {
         #[verifier::external_body] pub fn new(p: &path::PathBuf) -> (r: Result<Table, MonorailError>) { unimplemented!() }
-        #[verifier::external_body] pub fn open_checkpoint(&self) -> (r: Result<Checkpoint, MonorailError>) { unimplemented!() }
+        // a blank in-memory checkpoint (nothing is read or written)
+        #[verifier::external_body] pub fn new_checkpoint(&self) -> Checkpoint { unimplemented!() }
+        // ASSUMED here (Checkpoint::open is under contract in unit tracking): reads only; Ok only when a checkpoint file exists;
+        // the error is TrackingCheckpointNotFound exactly when there is none - a file that exists but cannot be read or decoded is
+        // some other error
+        #[verifier::external_body] pub fn open_checkpoint(&self, Tracked(w): Tracked<&mut World>) -> (r: Result<Checkpoint, MonorailError>)
+            ensures *final(w) == *old(w), r is Ok ==> old(w).cp_file is Some,
+                (r matches Err(e) && e is TrackingCheckpointNotFound) <==> old(w).cp_file is None,
+        { unimplemented!() }
     }
     impl Run {
         // contract of Run::save as used by `run` (the crash-safety contract is proved in unit tracking): ASSUMED here, with
@@ -56,7 +64,13 @@ pub mod tracking {
 pub mod git {
     use vstd::prelude::*;
     use super::*;
-    pub struct GitOptions<'a> { pub x: &'a u8 }
+//!type src/core/git.rs GitOptions
+    pub struct GitOptions<'a> {
+        pub begin: Option<&'a str>,
+        pub end: Option<&'a str>,
+        pub git_path: &'a str,
+    }
+//!end
     pub uninterp spec fn git_changes(work_path: Seq<char>) -> Seq<Seq<char>>;
     // ASSUMED: git is not modelled (C02, C07 are not applicable); the change list is an uninterpreted function of the repository
     #[verifier::external_body] pub async fn get_git_all_changes<'a>(o: &GitOptions<'a>, c: &tracking::Checkpoint, work_path: &path::Path) -> (r: Result<Vec<Change>, MonorailError>)
@@ -134,7 +148,7 @@ impl ArgMap {
     #[verifier::external_body] pub fn merge_run_input(&mut self, input: &HandleRunInput) -> (r: Result<(), MonorailError>) { unimplemented!() }
 }
 pub struct Plan { pub ghost groups: Seq<Seq<Seq<char>>>, pub x: u8 }
-pub struct RunOutput { pub failed: bool, pub x: u8 }
+pub struct RunOutput { pub failed: bool, pub checkpointed: bool, pub x: u8 }
 // contract of get_next_tracking_run as used here: the new id is next_slot(recorded id, max) (slot arithmetic proved in unit runplan)
 #[verifier::external_body] fn get_next_tracking_run(cfg: &core::Config, tracking_table: &tracking::Table, Tracked(w): Tracked<&mut World>) -> (r: Result<tracking::Run, MonorailError>)
     ensures *final(w) == *old(w), r matches Ok(run) ==> run.id == next_slot(old(w).recorded_id, cfg.max_retained_runs as int) && old(w).recorded_id >= 0
@@ -142,7 +156,7 @@ pub struct RunOutput { pub failed: bool, pub x: u8 }
 // ASSUMED (repo function): removes and recreates the slot directory.  C13: it must never be the slot the pointer records
 #[verifier::external_body] fn setup_run_path(cfg: &core::Config, run_id: usize, work_path: &path::Path, Tracked(w): Tracked<&mut World>) -> (r: Result<path::PathBuf, MonorailError>)
     requires cfg.max_retained_runs >= 2 ==> run_id != old(w).recorded_id,
-    ensures r matches Ok(p) ==> slot_of(p@) == run_id,
+    ensures r matches Ok(p) ==> slot_of(p@) == run_id, final(w).cp_file == old(w).cp_file,
         final(w).wiped == old(w).wiped.insert(run_id as int), final(w).result_stored == old(w).result_stored.remove(run_id as int),
         final(w).ran_groups == old(w).ran_groups, final(w).argmap_log == old(w).argmap_log, final(w).executed == old(w).executed, final(w).pointer_saved == old(w).pointer_saved, final(w).recorded_id == old(w).recorded_id,
 { unimplemented!() }
@@ -154,7 +168,7 @@ pub struct RunOutput { pub failed: bool, pub x: u8 }
 { unimplemented!() }
 // ASSUMED here (run_internal = process_plan, proved in unit runexec): executes the plan
 #[verifier::external_body] async fn run_internal<'a>(cfg: &'a core::Config, plan: Plan, commands: &'a [&'a String], fail_on_undefined: bool, invocation: &'a str, checkpointed: bool, Tracked(w): Tracked<&mut World>) -> (r: Result<RunOutput, MonorailError>)
-    ensures final(w).executed, final(w).ran_groups == plan.groups,
+    ensures final(w).executed, final(w).ran_groups == plan.groups, r matches Ok(o) ==> o.checkpointed == checkpointed, final(w).cp_file == old(w).cp_file,
         final(w).argmap_log == old(w).argmap_log, final(w).result_stored == old(w).result_stored, final(w).wiped == old(w).wiped, final(w).pointer_saved == old(w).pointer_saved, final(w).recorded_id == old(w).recorded_id,
 { unimplemented!() }
 pub uninterp spec fn slot_of(run_path: Seq<char>) -> int;
@@ -230,9 +244,11 @@ pub open spec fn singletons_of(g: Seq<Seq<Seq<char>>>, s: Set<Seq<char>>) -> boo
     &&& forall|t: Seq<char>| s.contains(t) ==> in_groups(g, t)
 }
 // C05: which groups a run executes, for the three selection modes
-pub open spec fn selection_ok(cfg: Config, input: HandleRunInput, work_path: Seq<char>, ran: Seq<Seq<Seq<char>>>) -> bool {
+// C05 / C19: without a checkpoint there is no change list (every target is covered); with one, the changes since it
+pub open spec fn changes_for(has_cp: bool, work_path: Seq<char>) -> Option<Seq<Seq<char>>> { if has_cp { Some(git::git_changes(work_path)) } else { None } }
+pub open spec fn selection_ok(cfg: Config, input: HandleRunInput, work_path: Seq<char>, has_cp: bool, ran: Seq<Seq<Seq<char>>>) -> bool {
     if input.targets@ =~= Set::<Seq<char>>::empty() {
-        exists|all: Set<Seq<char>>, ch: Option<Seq<Seq<char>>>| #![trigger analyze_groups(all, ch)] is_all_paths(cfg.targets@, all) && (ch is None || ch == Some(git::git_changes(work_path))) && ran == analyze_groups(all, ch)
+        exists|all: Set<Seq<char>>| #![trigger analyze_groups(all, changes_for(has_cp, work_path))] is_all_paths(cfg.targets@, all) && ran == analyze_groups(all, changes_for(has_cp, work_path))
     } else if input.include_deps {
         ran == analyze_groups(input.targets@, None::<Seq<Seq<char>>>)
     } else {
@@ -240,7 +256,7 @@ pub open spec fn selection_ok(cfg: Config, input: HandleRunInput, work_path: Seq
     }
 }
 
-//!fn src/app/run.rs handle_run rules=R1,R10 props=C05,C11,C12,C13
+//!fn src/app/run.rs handle_run rules=R1,R10 props=C05,C11,C12,C13,C19,C03
 pub(crate) async fn handle_run<'a>(
     cfg: &'a core::Config,
     input: &'a HandleRunInput<'a>,
@@ -256,7 +272,10 @@ pub(crate) async fn handle_run<'a>(
 @        res is Ok ==> final(w).executed && final(w).result_stored.contains(next_slot(old(w).recorded_id, cfg.max_retained_runs as int)) && final(w).wiped.contains(next_slot(old(w).recorded_id, cfg.max_retained_runs as int)), // [C12,C13]
 @        res is Err ==> final(w).pointer_saved == old(w).pointer_saved, // [C12,C13]
 @        // C05: exactly the selected targets are executed, grouped as analyze reports
-@        res is Ok ==> selection_ok(*cfg, *input, work_path@, final(w).ran_groups), // [C05]
+@        res is Ok ==> selection_ok(*cfg, *input, work_path@, old(w).cp_file is Some, final(w).ran_groups), // [C05,C19,C03]
+@        // C19: a run without named targets says `checkpointed` exactly when a checkpoint exists; a checkpoint that exists but cannot be
+@        // read is an error, never "no checkpoint" (C05: `run` and `analyze` agree)
+@        res matches Ok(o) ==> (input.targets@ =~= Set::<Seq<char>>::empty() ==> o.checkpointed == (old(w).cp_file is Some)), // [C19,C05]
 @        // C11: the argmaps of every executed target were merged (base first, then the requested files in order: merge_target_argmaps)
 @        (res is Ok && (input.use_base_argmaps || input.argmaps@.len() > 0)) ==> forall|t: Seq<char>| #![trigger in_groups(final(w).ran_groups, t)] in_groups(final(w).ran_groups, t) ==> merged_for(final(w).argmap_log, t), // [C11]
 {
@@ -275,7 +294,7 @@ pub(crate) async fn handle_run<'a>(
         0 => {
             let ths = cfg.get_target_path_set();
             let mut index = core::Index::new(cfg, &ths, work_path)?;
-            let checkpoint = match tracking_table.open_checkpoint() {
+            let checkpoint = match tracking_table.open_checkpoint(Tracked(w)) {
                 Ok(checkpoint) => Some(checkpoint),
                 Err(MonorailError::TrackingCheckpointNotFound(_)) => None,
                 Err(e) => {
